@@ -17,6 +17,10 @@ package recovery
 //@   at call indexHeader#1 assert [header-position] 512*(pipes.RecordSize*arg_record+arg_block) == hdrStart(arg_hdr) && 0 <= arg_block && arg_block < pipes.RecordSize
 //@   property C06
 //@   at call Seek#3 assert [resync-forward] arg_offset >= curr && arg_offset - curr < 512 && arg_offset % 512 == 0 && arg_whence == 0
+//@   ensures [a-failed-replay-keeps-what-it-indexed] purges <= old(purges) + 1
+//@   at call indexHeader assert [the-index-is-emptied-before-the-replay-only] purges <= old(purges) + 1
+//@   property C16
+//@   ensures [a-failed-rebuild-keeps-what-it-indexed] purges <= old(purges) + 1
 //@   property C07
 //@   at call PurgeAllHeaders#1 assert [no-purge-unless-overwrite] overwrite
 //@   property C08
@@ -66,7 +70,7 @@ package recovery
 //@   param onHeader is HeaderCallback
 //@   property C10 also C11
 //@   safety C10
-//@   modifies *, indexWrites, hdrVerified[hdr], hdrSubstituted[hdr], hdrSealed[hdr], ghosts(C14), ghosts(C07), ghosts(C12), keyMoves
+//@   modifies *, indexWrites, hdrVerified[hdr], hdrSubstituted[hdr], hdrSealed[hdr], ghosts(C14), rowWrites, ghosts(C12), keyMoves
 //@   property C07
 //@   ensures [move-record-rewrites-key] old(has(hdr.PAXRecords, "STFS.ReplacesName")) && (!old(has(hdr.PAXRecords, "STFS.Version")) || old(hdr.PAXRecords["STFS.Version"]) == "1") && old(hdr.PAXRecords["STFS.Action"]) == "UPDATE" && result == nil ==> keyMoves == old(keyMoves) + 1
 //@   property C04
